@@ -329,6 +329,43 @@ fn run_encode(front: &str, stack: &str, inp: &Input, sched: Sched) -> Outcome {
     Outcome { class: class_of(r), dev: dev.data(), dev2: None, counts: dev.counts(), counts2: [0; 4], err_reads: 0, prog }
 }
 
+/// A caller that does not give up at the first error: one large `write` (more PCM frames than a block can hold,
+/// > 65535 in the big variants) hits a failing write call, the error is returned — and the caller then finalizes
+/// (mode "finalize") or simply drops the writer (mode "drop") on a device that works again ("once") or stays broken
+/// ("perm").  Neither may panic.  Returns (class of the write, class of finalize / "dropped", panic message if any).
+fn run_encode_salvage(front: &str, frames: usize, ch: u8, nth_write: usize, perm: bool, then_drop: bool) -> (String, String, Option<String>) {
+    let sched = sched_for('w', if perm { "perm" } else { "once" }, nth_write, 1);
+    let dev = Dev::new(vec![], 0, sched);
+    let pcm: Vec<i32> = (0..frames * ch as usize).map(|i| ((i * 37) % 2001) as i32 - 1000).collect();
+    let r = catch(|| -> (String, String) {
+        let cls = |r: Result<(), Error>| match r { Ok(()) => "ok".to_string(), Err(e) => format!("err:{}", err_class(&e)) };
+        match front {
+            "sample" => {
+                let Ok(mut e) = FlacSampleWriter::new(dev.clone(), Options::default(), 44100, 16, ch, None) else { return ("new-failed".into(), "-".into()) };
+                let w = cls(e.write(&pcm));
+                if then_drop { drop(e); (w, "dropped".into()) } else { (w, cls(e.finalize())) }
+            }
+            "byte" => {
+                let Ok(mut e) = FlacByteWriter::endian(dev.clone(), LittleEndian, Options::default(), 44100, 16, ch, None) else { return ("new-failed".into(), "-".into()) };
+                let mut raw = vec![];
+                for s in &pcm { raw.extend_from_slice(&s.to_le_bytes()[..2]); }
+                let w = cls(e.write_all(&raw).map_err(Error::Io));
+                if then_drop { drop(e); (w, "dropped".into()) } else { (w, cls(e.finalize())) }
+            }
+            _ => {
+                let Ok(mut e) = FlacChannelWriter::new(dev.clone(), Options::default(), 44100, 16, ch, None) else { return ("new-failed".into(), "-".into()) };
+                let chans: Vec<Vec<i32>> = (0..ch as usize).map(|c| (0..frames).map(|i| pcm[i * ch as usize + c]).collect()).collect();
+                let w = cls(e.write(&chans));
+                if then_drop { drop(e); (w, "dropped".into()) } else { (w, cls(e.finalize())) }
+            }
+        }
+    });
+    match r {
+        Ok((w, f)) => (w, f, None),
+        Err(p) => ("?".into(), "?".into(), Some(p)),
+    }
+}
+
 fn run_write_blocks(stack: &str, blocks: &[Block], sched: Sched) -> Outcome {
     let dev = Dev::new(vec![], 0, sched);
     let log = Rc::new(RefCell::new(vec![]));
@@ -604,6 +641,40 @@ fn main() {
         }
     }
     ctx.emit_cases = true;
+
+    // ---- a failed write, then finalize or drop anyway (the writer must not panic whatever it is asked afterwards)
+    {
+        let mut salvage_runs = 0u64;
+        // first find how many write calls `new` makes (the metadata), so that the fault lands inside the first frames
+        let sizes: &[usize] = if thorough { &[5000, 65535, 65536, 65537, 70000, 131072] } else { &[5000, 65536, 70000] };
+        for front in ["sample", "byte", "channel"] {
+            for &(ch, frames_div) in &[(1u8, 1usize), (2u8, 1usize)] {
+                for &n in sizes {
+                    let frames = n / frames_div;
+                    // the n-th write call counted from the start of the device's life: sweep a window that covers the end of
+                    // `new` and the first frames of `write`
+                    let probe = { let d = Dev::new(vec![], 0, Sched::default()); let _ = FlacSampleWriter::new(d.clone(), Options::default(), 44100, 16, ch, None).map(|w| std::mem::forget(w)); d.counts()[0] };
+                    for k in [probe, probe + 1, probe + 2, probe + 5, probe + 9] {
+                        for perm in [false, true] {
+                            for then_drop in [false, true] {
+                                let (w, f, p) = run_encode_salvage(front, frames, ch, k, perm, then_drop);
+                                salvage_runs += 1;
+                                ctx.runs += 1;
+                                let scn = format!("salvage:{}:ch{}:frames{}", front, ch, frames);
+                                let st = format!("write call {} fails {} then {}", k, if perm { "and all later ones" } else { "once" }, if then_drop { "drop" } else { "finalize()" });
+                                if let Some(p) = p {
+                                    viol(&mut ctx, &format!("panic:after-failed-write:{}", front),
+                                         &format!("{}: after `write` of {} PCM frames ({} channel(s)) met a failing write call, {} panicked: {}", front, frames, ch, if then_drop { "dropping the writer" } else { "finalize()" }, p),
+                                         &scn, &st, &[("write_class", esc(&w)), ("after_class", esc(&f))]);
+                                }
+                            }
+                        }
+                    }
+                }
+            }
+        }
+        println!("{}", obj(&[("t", esc("note")), ("msg", esc(&format!("finalize/drop after a failed large write: {} runs", salvage_runs)))]));
+    }
 
     // ---- write_blocks
     let si = {
